@@ -2,7 +2,7 @@
    models/SmtLex.v: the execution cache (SmtLibExecutionCache: [keys] stacks, [definitions], their
    look-up priority), [atom] (cache first, then literals typed by the declared logic, the result
    cached under its token), the stack-based term reader [get_expression] with its special forms
-   (let, forall/exists, !, _, as), the [interpreted] operator table with the fix_real coercion,
+   (let - parallel -, forall/exists, !, _, as), the [interpreted] operator table with the fix_real coercion,
    parse_type / parse_atoms / parse_params, and the command readers.  Every term is built through
    the FormulaManager constructor models of models/Ctors.v followed by the type check that
    create_node performs (models/TypeChecker.v).  Quirks are kept (see the comments marked QUIRK).
@@ -21,9 +21,10 @@
    Not modelled: the optimisation extension commands (assert-soft, maximize, minimize, minmax,
    maxmin, check-allsat, get-objectives, load-objective-model), the annotation store (annotations
    do not change the term), calling a parametric define-sort in term position, the interactive
-   reader.  Annotation values in parentheses are skipped at TOKEN level (the code counts
-   parentheses on raw characters): exact unless the value contains a parenthesis inside a quoted
-   symbol, a string literal or a comment. *)
+   reader.  Annotation values in parentheses are skipped on raw characters as in the code when the
+   state carries the source ([srcs], filled by [parse_chars]); a state built from a bare token list
+   (proofs, round trip) falls back to counting parenthesis TOKENS, which is the same unless the value
+   contains a parenthesis inside a quoted symbol, a string literal or a comment. *)
 From Coq Require Import List ZArith Bool String Ascii.
 From PySMT.core Require Import Syntax PyPrims.
 From PySMT.gen Require Import Logics.
@@ -173,7 +174,7 @@ Inductive idxfun := FExtract (s e : Z) | FZext (k : Z) | FSext (k : Z) | FRepeat
 
 (* the callables of the [interpreted] table *)
 Inductive opname :=
-| PPlus | PMinus | PTimes | PDiv | PPow | PGt | PLt | PGe | PLe | PEq
+| PPlus | PMinus | PTimes | PDiv | PIntDiv | PPow | PGt | PLt | PGe | PLe | PEq
 | PNot | PAnd | POr | PXor | PImplies | PIff | PIte | PDistinct | PToReal
 | PConcat | PBv1 (k : bvop) | PBvN (k : bvop) | PBv2 (k : bvop) | PBvRel (k : bvrel) (swap : bool)
 | PBvNand | PBvNor | PBvXnor | PBvSmod
@@ -204,21 +205,24 @@ Record pstate := mkS {
   logic_ia : option bool;                      (* None: no logic; Some b: logic.theory.integer_arithmetic *)
   symtab : list (string * ty);                 (* FormulaManager.symbols *)
   fresh : Z;                                   (* FormulaManager._fresh_guess *)
-  sorts : list (string * Z)                    (* TypeManager._custom_types_decl: name, arity *)
+  sorts : list (string * Z);                   (* TypeManager._custom_types_decl: name, arity *)
+  srcs : list (option (list ascii))            (* for every token of [toks]: the source after it, if known *)
 }.
 
 Definition set_toks (s : pstate) (l : list string) (e : lex_end) : pstate :=
-  mkS l e (keys s) (defs s) (logic_ia s) (symtab s) (fresh s) (sorts s).
+  mkS l e (keys s) (defs s) (logic_ia s) (symtab s) (fresh s) (sorts s) (map (fun _ => None) l).
+Definition set_toks_src (s : pstate) (l : list (string * list ascii)) (e : lex_end) : pstate :=
+  mkS (map fst l) e (keys s) (defs s) (logic_ia s) (symtab s) (fresh s) (sorts s) (map (fun p => Some (snd p)) l).
 Definition set_keys (s : pstate) (k : list (string * list item)) : pstate :=
-  mkS (toks s) (tend s) k (defs s) (logic_ia s) (symtab s) (fresh s) (sorts s).
+  mkS (toks s) (tend s) k (defs s) (logic_ia s) (symtab s) (fresh s) (sorts s) (srcs s).
 Definition set_defs (s : pstate) (d : list (string * (list var * item))) : pstate :=
-  mkS (toks s) (tend s) (keys s) d (logic_ia s) (symtab s) (fresh s) (sorts s).
+  mkS (toks s) (tend s) (keys s) d (logic_ia s) (symtab s) (fresh s) (sorts s) (srcs s).
 Definition set_logic (s : pstate) (l : option bool) : pstate :=
-  mkS (toks s) (tend s) (keys s) (defs s) l (symtab s) (fresh s) (sorts s).
+  mkS (toks s) (tend s) (keys s) (defs s) l (symtab s) (fresh s) (sorts s) (srcs s).
 Definition set_syms (s : pstate) (t : list (string * ty)) (f : Z) : pstate :=
-  mkS (toks s) (tend s) (keys s) (defs s) (logic_ia s) t f (sorts s).
+  mkS (toks s) (tend s) (keys s) (defs s) (logic_ia s) t f (sorts s) (srcs s).
 Definition set_sorts (s : pstate) (t : list (string * Z)) : pstate :=
-  mkS (toks s) (tend s) (keys s) (defs s) (logic_ia s) (symtab s) (fresh s) t.
+  mkS (toks s) (tend s) (keys s) (defs s) (logic_ia s) (symtab s) (fresh s) t (srcs s).
 
 Inductive res (A : Type) := ROk (a : A) (s : pstate) | RErr (e : err) (s : pstate).
 Arguments ROk {A}. Arguments RErr {A}.
@@ -250,15 +254,26 @@ Definition cache_unbind (k : string) (s : pstate) : res unit :=
   | Some (_ :: l) => ROk tt (set_keys s (aset k l (keys s)))
   | _ => RErr EOther s
   end.
-(* QUIRK: [definitions] (define-fun / define-sort names) win over every binding in [keys],
-   including let / quantifier / parameter bindings made later *)
+(* cache.get: a live binding in [keys] (let / quantifier / parameter bindings, declarations)
+   shadows a definition of the same name; cache.define drops the older bindings of the name *)
 Definition cache_get (k : string) (s : pstate) : option item :=
-  match alookup k (defs s) with
-  | Some ([], body) => Some body
-  | Some (ps, ITerm b) => Some (IDef ps b)
-  | Some (_, _) => Some IPartial        (* unreachable: parameters only come with a term body *)
-  | None => match alookup k (keys s) with Some (x :: _) => Some x | _ => None end
+  match alookup k (keys s) with
+  | Some (x :: _) => Some x
+  | _ =>
+      match alookup k (defs s) with
+      | Some ([], body) => Some body
+      | Some (ps, ITerm b) => Some (IDef ps b)
+      | Some (_, _) => Some IPartial        (* unreachable: parameters only come with a term body *)
+      | None => None
+      end
   end.
+Fixpoint aremove {A} (k : string) (l : list (string * A)) : list (string * A) :=
+  match l with
+  | [] => []
+  | (k', v) :: r => if String.eqb k k' then r else (k', v) :: aremove k r
+  end.
+Definition cache_define (k : string) (ps : list var) (body : item) (s : pstate) : pstate :=
+  set_keys (set_defs s (aset k (ps, body) (defs s))) (aremove k (keys s)).
 Fixpoint unbind_all (ks : list string) (s : pstate) : res unit :=
   match ks with
   | [] => ROk tt s
@@ -268,9 +283,11 @@ Fixpoint unbind_all (ks : list string) (s : pstate) : res unit :=
 (* ---------------------------------------------------------------- tokens *)
 (* consume_maybe: StopIteration at the end; a tokenizer error is raised once, after which the
    finished generator raises StopIteration *)
+Definition pop_tok (s : pstate) (r : list string) : pstate :=
+  mkS r (tend s) (keys s) (defs s) (logic_ia s) (symtab s) (fresh s) (sorts s) (tl (srcs s)).
 Definition next_maybe (s : pstate) : res string :=
   match toks s with
-  | t :: r => ROk t (set_toks s r (tend s))
+  | t :: r => ROk t (pop_tok s r)
   | [] => match tend s with
           | LexErr => RErr ESyntax (set_toks s [] LexEof)
           | LexEof => RErr EStop s
@@ -279,7 +296,14 @@ Definition next_maybe (s : pstate) : res string :=
 (* consume: StopIteration becomes PysmtSyntaxError *)
 Definition next_tok (s : pstate) : res string :=
   match next_maybe s with RErr EStop s' => RErr ESyntax s' | r => r end.
-Definition push_back (t : string) (s : pstate) : pstate := set_toks s (t :: toks s) (tend s).
+Definition push_back (t : string) (s : pstate) : pstate :=
+  mkS (t :: toks s) (tend s) (keys s) (defs s) (logic_ia s) (symtab s) (fresh s) (sorts s) (None :: srcs s).
+(* enough steps for every loop over the rest of the input: one per remaining token, plus one per
+   remaining character when the source is known (re-tokenising after a raw read can split a token) *)
+Definition fuel_of (s : pstate) : nat :=
+  S (List.length (toks s) + match srcs s with Some r :: _ => S (List.length r) | _ => 0 end).
+(* the source after the token that [next_*] is about to return *)
+Definition next_src (s : pstate) : option (list ascii) := match srcs s with Some r :: _ => Some r | _ => None end.
 (* consume_opening (consume_maybe: StopIteration passes through) / consume_closing *)
 Definition consume_opening (s : pstate) : res unit :=
   do t , s1 <- next_maybe s ;; if String.eqb t "(" then ROk tt s1 else RErr ESyntax s1.
@@ -548,6 +572,7 @@ Definition apply_op (o : opname) (args : list term) : er term :=
                ebind (const_fraction a) (fun fa => ebind (const_fraction b) (fun fb =>
                match fr_div fa fb with Some q => Ok (mk_real q) | None => Er EOther end))
              else fix_real (bin (fun x y => chko (mk_div x y) EOther)) [a; b]) args
+  | PIntDiv => bin (fun a b => if is_int_t a && is_int_t b then chko (mk_div a b) EOther else Er EType) args
   | PPow => bin (fun a b => if negb (is_constant b) then Er EValue else chko (mk_pow a b) EOther) args
   | PGt => fix_real (bin (fun a b => chk (mk_lt b a))) args
   | PLt => fix_real (bin (fun a b => chk (mk_lt a b))) args
@@ -594,7 +619,8 @@ Definition apply_idx (f : idxfun) (x : term) : er term :=
   end.
 
 (* ================================================================ calling an item: the call of fun on lst *)
-Definition dedupe_vars (vs : list (string * var)) : list var := dedupe var_eqb (map snd vs).
+(* _exit_quantifier: the variables in textual order, repetitions kept *)
+Definition dedupe_vars (vs : list (string * var)) : list var := map snd vs.
 
 Definition call (f : item) (args : list item) (s : pstate) : res item :=
   match f with
@@ -718,7 +744,7 @@ Inductive handler := HLet | HAnnot | HQuant (fa : bool) | HUnderscore | HAs | HO
 
 Definition interpreted_table : list (string * handler) :=
   [ ("let", HLet); ("!", HAnnot); ("exists", HQuant false); ("forall", HQuant true);
-    ("+", HOp PPlus); ("-", HOp PMinus); ("*", HOp PTimes); ("/", HOp PDiv); ("pow", HOp PPow);
+    ("+", HOp PPlus); ("-", HOp PMinus); ("*", HOp PTimes); ("/", HOp PDiv); ("div", HOp PIntDiv); ("pow", HOp PPow);
     (">", HOp PGt); ("<", HOp PLt); (">=", HOp PGe); ("<=", HOp PLe); ("=", HOp PEq);
     ("not", HOp PNot); ("and", HOp PAnd); ("or", HOp POr); ("xor", HOp PXor);
     ("=>", HOp PImplies); ("<->", HOp PIff); ("ite", HOp PIte); ("distinct", HOp PDistinct);
@@ -738,6 +764,7 @@ Definition interpreted_table : list (string * handler) :=
     ("str.contains", HOp (PStr SContains)); ("str.indexof", HOp (PStr SIndexOf));
     ("str.replace", HOp (PStr SReplace)); ("str.substr", HOp (PStr SSubstr));
     ("str.prefixof", HOp (PStr SPrefixOf)); ("str.suffixof", HOp (PStr SSuffixOf));
+    ("str.to_int", HOp (PStr SToInt)); ("str.from_int", HOp (PStr SFromInt));
     ("str.to.int", HOp (PStr SToInt)); ("int.to.str", HOp (PStr SFromInt));
     ("bv2nat", HOp PBv2Nat); ("select", HOp PSelect); ("store", HOp PStore); ("as", HAs) ].
 
@@ -760,7 +787,7 @@ Definition strop_name (k : strop) : string :=
 Definition op_desc (o : opname) : string :=
   match o with
   | PPlus => "fix_real:Plus" | PMinus => "self:_minus_or_uminus" | PTimes => "fix_real:Times"
-  | PDiv => "self:_division" | PPow => "mgr:Pow" | PGt => "fix_real:GT" | PLt => "fix_real:LT"
+  | PDiv => "self:_division" | PIntDiv => "self:_int_division" | PPow => "mgr:Pow" | PGt => "fix_real:GT" | PLt => "fix_real:LT"
   | PGe => "fix_real:GE" | PLe => "fix_real:LE" | PEq => "self:_equals_or_iff"
   | PNot => "mgr:Not" | PAnd => "mgr:And" | POr => "mgr:Or" | PXor => "mgr:Xor"
   | PImplies => "mgr:Implies" | PIff => "mgr:Iff" | PIte => "fix_real:Ite"
@@ -816,7 +843,14 @@ Fixpoint annot_loop (fuel : nat) (tk : string) (s : pstate) : res unit :=
         do t2 , s1 <- next_tok s ;;
         if starts_with ":" t2 || String.eqb t2 ")" then annot_loop f t2 s1
         else if String.eqb t2 "(" then
-          do _ , s2 <- skip_balanced (S (List.length (toks s1))) 0 s1 ;;
+          do _ , s2 <- (match next_src s with
+                        | Some after =>         (* raw_read: parentheses counted on characters *)
+                            match skip_raw after 0 with
+                            | Some rest => let tk := lex_src rest in ROk tt (set_toks_src s1 (fst tk) (snd tk))
+                            | None => RErr EStop (set_toks s1 [] LexEof)
+                            end
+                        | None => skip_balanced (fuel_of s1) 0 s1
+                        end) ;;
           do t3 , s3 <- next_tok s2 ;; annot_loop f t3 s3
         else do t3 , s2 <- next_tok s1 ;; annot_loop f t3 s2
   end.
@@ -827,6 +861,15 @@ Definition catch_stop {A} (r : res (option A)) : res (option A) :=
 (* assert_not_none(get_expression(tokens)) *)
 Definition not_none {A} (r : res (option A)) : res A :=
   do o , s <- r ;; match o with Some a => ROk a s | None => RErr EOther s end.
+
+(* after the last binding of a let: every name is bound to its value (an early binding is replaced) *)
+Fixpoint let_finish (vals : list (string * item)) (early : list string) (s : pstate) : res unit :=
+  match vals with
+  | [] => ROk tt s
+  | (v, e) :: r =>
+      do _ , s1 <- (if str_in v early then cache_unbind v s else ROk tt s) ;;
+      let_finish r early (cache_bind v e s1)
+  end.
 
 Fixpoint get_expr (fuel : nat) (stk : stack) (s : pstate) {struct fuel} : res (option item) :=
   match fuel with
@@ -852,26 +895,31 @@ Fixpoint get_expr (fuel : nat) (stk : stack) (s : pstate) {struct fuel} : res (o
                  | Some HLet =>
                      do _ , st2 <- consume_opening st1 ;;
                      do _ , st3 <- consume_opening st2 ;;
-                     (* the bindings are evaluated and bound ONE AFTER THE OTHER (QUIRK) *)
-                     (fix bindings (k : nat) (cur : string) (names : list string) (sb : pstate) {struct k}
-                        : res (option item) :=
+                     (* parallel let: the bound terms are read in the enclosing scope and the names
+                        bound after the last binding; EXTENSION: a name that means nothing in the
+                        enclosing scope is visible to the following bindings of the same let *)
+                     (fix bindings (k : nat) (cur : string) (vals : list (string * item)) (early : list string)
+                                   (sb : pstate) {struct k} : res (option item) :=
                         match k with
                         | O => RErr EUnmodelled sb
                         | S k' =>
                             if String.eqb cur ")" then
-                              match push_items [IExitLet; IKeys names] stk with
-                              | Some stk' => get_expr f stk' sb
-                              | None => RErr EOther sb
+                              do _ , sb1 <- let_finish vals early sb ;;
+                              match push_items [IExitLet; IKeys (map fst vals)] stk with
+                              | Some stk' => get_expr f stk' sb1
+                              | None => RErr EOther sb1
                               end
                             else if negb (String.eqb cur "(") then RErr ESyntax sb
                             else
                               do vname , sb1 <- parse_atom sb ;;
                               do e , sb2 <- not_none (get_expr f [] sb1) ;;
-                              let sb3 := cache_bind vname e sb2 in
+                              let is_early := negb (str_in vname (map fst vals)) &&
+                                              match cache_get vname sb2 with None => true | Some _ => false end in
+                              let sb3 := if is_early then cache_bind vname e sb2 else sb2 in
                               do _ , sb4 <- consume_closing sb3 ;;
                               do c , sb5 <- next_tok sb4 ;;
-                              bindings k' c (if str_in vname names then names else names ++ [vname]) sb5
-                        end) (S (List.length (toks st3))) "(" [] st3
+                              bindings k' c (aset vname e vals) (if is_early then vname :: early else early) sb5
+                        end) (fuel_of st3) "(" [] [] st3
                  | Some (HQuant fa) =>
                      do _ , st2 <- consume_opening st1 ;;
                      do _ , st3 <- consume_opening st2 ;;
@@ -888,7 +936,7 @@ Fixpoint get_expr (fuel : nat) (stk : stack) (s : pstate) {struct fuel} : res (o
                             else if negb (String.eqb cur "(") then RErr ESyntax sb
                             else
                               do vname , sb1 <- parse_atom sb ;;
-                              do pt , sb2 <- parse_ty (S (List.length (toks sb1))) sb1 ;;
+                              do pt , sb2 <- parse_ty (fuel_of sb1) sb1 ;;
                               match pt with
                               | PTy t =>
                                   do v , sb3 <- quantified_var vname t sb2 ;;
@@ -899,13 +947,13 @@ Fixpoint get_expr (fuel : nat) (stk : stack) (s : pstate) {struct fuel} : res (o
                                   qvars k' c (vrs ++ [(vname, var)]) sb6
                               | _ => RErr EValue sb2
                               end
-                        end) (S (List.length (toks st3))) "(" [] st3
+                        end) (fuel_of st3) "(" [] st3
                  | Some HAnnot =>
                      do e , st2 <- not_none (get_expr f [] st1) ;;
                      match e with
                      | ITerm term =>
                          do tk2 , st3 <- next_tok st2 ;;
-                         do _ , st4 <- annot_loop (S (List.length (toks st3))) tk2 st3 ;;
+                         do _ , st4 <- annot_loop (fuel_of st3) tk2 st3 ;;
                          match stk with
                          | [] :: _ =>
                              match push_item (IThunkTerm term) stk with
@@ -977,7 +1025,7 @@ Fixpoint get_expr (fuel : nat) (stk : stack) (s : pstate) {struct fuel} : res (o
                      else RErr ESyntax st2
                  | Some HAs =>
                      do what , st2 <- parse_atom st1 ;;
-                     do pt , st3 <- parse_ty (S (List.length (toks st2))) st2 ;;
+                     do pt , st3 <- parse_ty (fuel_of st2) st2 ;;
                      match pt with
                      | PTy t =>
                          let it := if String.eqb what "const"
@@ -999,7 +1047,7 @@ Fixpoint get_expr (fuel : nat) (stk : stack) (s : pstate) {struct fuel} : res (o
                      | None => RErr EOther st2
                      end
                  end
-           end) (S (List.length (toks s1))) ([] :: stk) s1
+           end) (fuel_of s1) ([] :: stk) s1
       else if String.eqb tk ")" then
         match stk with
         | [] => RErr ESyntax s1
@@ -1022,7 +1070,7 @@ Fixpoint get_expr (fuel : nat) (stk : stack) (s : pstate) {struct fuel} : res (o
         end)
   end.
 
-Definition expr_fuel (s : pstate) : nat := S (S (List.length (toks s))).
+Definition expr_fuel (s : pstate) : nat := S (fuel_of s).
 Definition get_expression (s : pstate) : res (option item) := get_expr (expr_fuel s) [] s.
 
 (* ================================================================ commands *)
@@ -1064,7 +1112,7 @@ Fixpoint expr_list (fuel : nat) (acc : list carg) (s : pstate) : res (list carg)
       end
   end.
 Definition parse_expr_list (s : pstate) : res (list carg) :=
-  do _ , s1 <- consume_opening s ;; expr_list (S (List.length (toks s1))) [] s1.
+  do _ , s1 <- consume_opening s ;; expr_list (fuel_of s1) [] s1.
 
 (* parse_params / parse_named_params *)
 Fixpoint params_loop (fuel : nat) (cur : string) (acc : list ptype) (s : pstate) : res (list ptype) :=
@@ -1072,12 +1120,12 @@ Fixpoint params_loop (fuel : nat) (cur : string) (acc : list ptype) (s : pstate)
   | O => RErr EUnmodelled s
   | S f =>
       if String.eqb cur ")" then ROk acc s
-      else do p , s1 <- parse_type (S (List.length (toks s))) [] (Some cur) s ;;
+      else do p , s1 <- parse_type (fuel_of s) [] (Some cur) s ;;
            do c , s2 <- next_tok s1 ;; params_loop f c (acc ++ [p]) s2
   end.
 Definition parse_params (s : pstate) : res (list ptype) :=
   do _ , s1 <- consume_opening s ;;
-  do c , s2 <- next_tok s1 ;; params_loop (S (List.length (toks s2))) c [] s2.
+  do c , s2 <- next_tok s1 ;; params_loop (fuel_of s2) c [] s2.
 
 Fixpoint named_loop (fuel : nat) (cur : string) (acc : list (string * ptype)) (s : pstate)
   : res (list (string * ptype)) :=
@@ -1086,13 +1134,13 @@ Fixpoint named_loop (fuel : nat) (cur : string) (acc : list (string * ptype)) (s
   | S f =>
       if String.eqb cur ")" then ROk acc s
       else do v , s1 <- parse_atom s ;;
-           do p , s2 <- parse_ty (S (List.length (toks s1))) s1 ;;
+           do p , s2 <- parse_ty (fuel_of s1) s1 ;;
            do _ , s3 <- consume_closing s2 ;;
            do c , s4 <- next_tok s3 ;; named_loop f c (acc ++ [(v, p)]) s4
   end.
 Definition parse_named_params (s : pstate) : res (list (string * ptype)) :=
   do _ , s1 <- consume_opening s ;;
-  do c , s2 <- next_tok s1 ;; named_loop (S (List.length (toks s2))) c [] s2.
+  do c , s2 <- next_tok s1 ;; named_loop (fuel_of s2) c [] s2.
 
 Definition carg_of_ptype (p : ptype) : carg :=
   match p with PTy t => AType t | PPartial => APartial | PParam n => AList [AStr n] end.
@@ -1160,7 +1208,7 @@ Definition run_command (name : string) (s : pstate) : res cmd :=
     end
   else if String.eqb name "declare-const" then
     do v , s1 <- parse_atom s ;;
-    do p , s2 <- parse_ty (S (List.length (toks s1))) s1 ;;
+    do p , s2 <- parse_ty (fuel_of s1) s1 ;;
     do _ , s3 <- consume_closing s2 ;;
     match p with
     | PTy t => do sym , s4 <- mk_symbol v t s3 ;; ROk (mkC name [ATerm sym]) (cache_bind v (ITerm sym) s4)
@@ -1169,7 +1217,7 @@ Definition run_command (name : string) (s : pstate) : res cmd :=
   else if String.eqb name "declare-fun" then
     do v , s1 <- parse_atom s ;;
     do ps , s2 <- parse_params s1 ;;
-    do p , s3 <- parse_ty (S (List.length (toks s2))) s2 ;;
+    do p , s3 <- parse_ty (fuel_of s2) s2 ;;
     do _ , s4 <- consume_closing s3 ;;
     match ps, p with
     | [], PTy t => do sym , s5 <- mk_symbol v t s4 ;; ROk (mkC name [ATerm sym]) (cache_bind v (ITerm sym) s5)
@@ -1195,7 +1243,7 @@ Definition run_command (name : string) (s : pstate) : res cmd :=
   else if String.eqb name "define-fun" then
     do v , s1 <- parse_atom s ;;
     do nps , s2 <- parse_named_params s1 ;;
-    do rt , s3 <- parse_ty (S (List.length (toks s2))) s2 ;;
+    do rt , s3 <- parse_ty (fuel_of s2) s2 ;;
     do formal , s4 <- fresh_params nps [] s3 ;;
     do body , s5 <- not_none (get_expression s4) ;;
     match body with
@@ -1212,7 +1260,7 @@ Definition run_command (name : string) (s : pstate) : res cmd :=
                 do _ , s7 <- unbind_all (map fst nps) s6 ;;
                 do _ , s8 <- consume_closing s7 ;;
                 ROk (mkC name [AStr v; AList (map (fun x => ATerm (TSym (fst x) (snd x))) formal); AType r; ATerm b'])
-                    (set_defs s8 (aset v (formal, ITerm b') (defs s8)))
+                    (cache_define v formal (ITerm b') s8)
             | _ => if ty_eqb bt TInt then RErr EOther s5 else RErr ESyntax s5
             end
         end
@@ -1227,14 +1275,14 @@ Definition run_command (name : string) (s : pstate) : res cmd :=
        | S k' =>
            do c , st1 <- next_tok st ;;
            if String.eqb c ")" then
-             do p , st2 <- parse_type (S (List.length (toks st1))) acc None st1 ;;
+             do p , st2 <- parse_type (fuel_of st1) acc None st1 ;;
              let p' := match p with PParam _ => PPartial | _ => p end in
              do _ , st3 <- consume_closing st2 ;;
              let it := match p' with PTy t => IType t | _ => IPartial end in
              ROk (mkC name [AStr n; AList []; carg_of_ptype p'])
-                 (set_defs st3 (aset n ([], it) (defs st3)))
+                 (cache_define n [] it st3)
            else tparams k' (acc ++ [c]) st1
-       end) (S (List.length (toks s2))) [] s2
+       end) (fuel_of s2) [] s2
   else if String.eqb name "get-value" || String.eqb name "check-sat-assuming" then
     do l , s1 <- parse_expr_list s ;;
     do _ , s2 <- consume_closing s1 ;; ROk (mkC name l) s2
@@ -1261,7 +1309,7 @@ Fixpoint commands (fuel : nat) (acc : list cmd) (s : pstate) : res (list cmd) :=
 
 (* _reset: a new cache with true/false bound; a fresh Environment *)
 Definition init_state (tk : list string * lex_end) : pstate :=
-  mkS (fst tk) (snd tk) [("false", [ITerm TFalse]); ("true", [ITerm TTrue])] [] None [] 0%Z [].
+  mkS (fst tk) (snd tk) [("false", [ITerm TFalse]); ("true", [ITerm TTrue])] [] None [] 0%Z [] (map (fun _ => None) (fst tk)).
 
 (* SmtLibParser(Environment()).get_script(text) as the list of commands, or the exception *)
 Definition parse_tokens (tk : list string * lex_end) : er (list cmd) :=
@@ -1270,7 +1318,13 @@ Definition parse_tokens (tk : list string * lex_end) : er (list cmd) :=
   | RErr e _ => Er e
   end.
 Definition parse_model (text : string) : er (list cmd) := parse_tokens (lex_string text).
-Definition parse_chars (cs : list ascii) : er (list cmd) := parse_tokens (lex cs).
+(* the same with the source kept next to the tokens (exact for parenthesised annotation values) *)
+Definition parse_chars (cs : list ascii) : er (list cmd) :=
+  let tk := lex_src cs in
+  match (let s0 := set_toks_src (init_state ([], snd tk)) (fst tk) (snd tk) in commands (S (fuel_of s0 + List.length cs)) [] s0) with
+  | ROk l _ => Ok l
+  | RErr e _ => Er e
+  end.
 
 (* get_expression on a term text in a state where [decls] were declared (for the round trip) *)
 Definition parse_term_in (s : pstate) (text : string) : er item :=
@@ -1282,12 +1336,12 @@ Definition parse_term_in (s : pstate) (text : string) : er item :=
   end.
 
 (* ================================================================ comparison (used by the harness)
-   terms: exact, except that the variable list of a quantifier is compared as a set (the code
-   builds it from a Python set); errors: by class, the crash classes identified. *)
+   terms: exact (the variables of a quantifier in textual order); errors: by class, the crash
+   classes identified. *)
 Fixpoint term_qeqb (a b : term) {struct a} : bool :=
   match a, b with
   | T o1 l1, T o2 l2 =>
-      op_ac_eqb o1 o2 &&
+      op_eqb o1 o2 &&
       (fix go (l1 l2 : list term) {struct l1} : bool :=
          match l1, l2 with
          | [], [] => true
